@@ -223,6 +223,13 @@ package lazy
 //@   requires d != nil && d.pikevm != nil && cache != nil && cache.stride >= 0 && 0 <= start
 //@   modifies @searchState
 //@   ensures result >= -2
+//@   ghost cleared = false
+//@   ghost again = false
+//@   ghost rec = 0
+//@   after call isCacheCleared#*: ghost cleared = lastcall
+//@   after call SearchReverseLimited#*: ghost again = true
+//@   after call SearchReverseLimited#*: ghost rec = lastcall
+//@   ensures cleared ==> again && result == rec
 //@   loop 1: invariant (lowerBound - 1 <= at || at == end - 1) && at < end && cache.stride >= 0 && end <= len(haystack) && 0 <= start && start <= lowerBound && ftLen == len(ft) && -1 <= lastMatch
 //@   loop 1: invariant lowerBound == ite(minStart > start, minStart, start)
 
@@ -258,3 +265,30 @@ package lazy
 //@   ghost usedFb = false
 //@   after call nfaFallback#*: ghost usedFb = true
 //@   ensures usedFb ==> result == fwdRef(d.nfa, haystack, startAt)
+// after a cache clear the states walked so far are gone: the search starts over (self call), it does not resume
+// from a fresh start state in the middle of the input
+//@   ghost cleared = false
+//@   ghost again = false
+//@   ghost rec = 0
+//@   after call isCacheCleared#*: ghost cleared = lastcall
+//@   after call findWithPrefilterAt#*: ghost again = true
+//@   after call findWithPrefilterAt#*: ghost rec = lastcall
+//@   ensures cleared ==> again && result == rec
+
+//@ trusted func (*DFA).getStartState
+//@   modifies @searchState
+//@ func (*DFA).SearchAtAnchored
+//@   props C14
+//@   opt safety=off
+//@   requires d != nil && cache != nil
+//@   modifies @searchState
+//@   ghost hard = false
+//@   ghost cleared = false
+//@   ghost again = false
+//@   ghost rec = 0
+//@   after call determinize#*: ghost hard = lastcall1 != nil
+//@   after call isCacheCleared#*: ghost cleared = lastcall
+//@   after call SearchAtAnchored#*: ghost again = true
+//@   after call SearchAtAnchored#*: ghost rec = lastcall
+//@   ensures hard && !cleared ==> result == fwdRef(d.nfa, haystack, at)
+//@   ensures hard && cleared ==> again && result == rec
